@@ -713,6 +713,19 @@ struct Exec {
             } else if (reader == "oas_precision") {
                 double p = 0;
                 returned = guarded([&]() { ec = oas_precision(file.c_str(), p); });
+                if (returned && trunc == 0 && oas && op.getb("against_full_load")) {
+                    ErrorCode ec2 = ErrorCode::NoError;
+                    Library full = {};
+                    bool r2 = guarded([&]() { full = read_oas(file.c_str(), 0, 0, &ec2); });
+                    if (r2) {
+                        if (ec != ErrorCode::NoError)
+                            viol("C17", "complete_file_rejected", std::string("oas_precision returned ") + bridge::error_name(ec) + " for a complete file", ctx);
+                        else if (!canon::rel_close(p, full.precision))
+                            viol("C17", "oas_precision_vs_full_load", "oas_precision returned " + canon::real_str(p) + ", the full load has precision " + canon::real_str(full.precision), ctx);
+                        guarded([&]() { full.free_all(); });
+                    }
+                    count("oas_precision_vs_full_load");
+                }
                 if (returned && trunc == 0 && oas && fi.model >= 0 && ec == ErrorCode::NoError) {
                     if (!canon::rel_close(p, models[fi.model].precision))
                         viol("C17", "oas_precision_wrong", "oas_precision returned " + canon::real_str(p) + " for a file written with precision " + canon::real_str(models[fi.model].precision), ctx);
